@@ -2240,6 +2240,7 @@ func repoTagHandler(c web.C, w http.ResponseWriter, r *http.Request) {
 	newuuid, err := datastore.NewVersion(uuid, jsonData.Note, branch, &uuidTag)
 	if err != nil {
 		BadRequest(w, r, err)
+		return
 	} else {
 		w.Header().Set("Content-Type", "application/json")
 		fmt.Fprintf(w, "{%q: %q}", "child", newuuid)
